@@ -37,6 +37,16 @@ CORE = [
 LOGGED = ("body", "fn", "pred", "factory", "effect")
 
 
+def syntactic_structural(term):
+    """(kind, name) of every user callable that sits in a branch-choosing position of the term."""
+    from ..terms import structural_subterms
+
+    out = set()
+    for sub in structural_subterms(term):
+        out |= all_callables(sub)
+    return out
+
+
 def cases(tier, seed):
     out = []
     plan = [(0, None), (1, None), (2, None)]
